@@ -3,6 +3,7 @@ from .. import tables as T
 from ..rules import influence as R1
 from ..rules import verdict as R3
 from ..rules import lenguard as R4
+from ..rules import meet as R1M
 
 CONFIGS_QUICK = ["default"]
 CONFIGS_THOROUGH = ["default", "nopar", "r1cs"]
@@ -14,8 +15,63 @@ EXPLANATION = (
     "reach the decision with the transcript cut, so no proof component can be replaced freely. R4: wherever the "
     "verifier zips an adversary-sized proof list with the claims, or encodes a vector taken from the proof, a length "
     "comparison must dominate that use - zip and Reed-Solomon encoding silently accept short / stretched inputs. "
+    "R1m: listed pairs of transcript components (opened columns vs the encoding of the opening / well-formedness "
+    "vector, leaf index vs transcript-derived index, commitment vs witness, ...) meet in a comparison whose result "
+    "reaches the outcome - liveness of each alone does not show they are checked against each other. "
     "These are necessary conditions of C03's shape clauses (empty or truncated proof lists, stretched vectors, "
     "foreign authentication paths); the cryptographic infeasibility of forging is out of reach of this technique.")
+# pairs of transcript components the verifier must compare with each other (anchor key -> [(name, A, B)])
+LP = "linear_codes::data_structures::"
+MEETS = {
+    "linear_codes.check": [
+        ("columns~E(v)", ("field", LP + "LinCodePCProofSingle", "columns", T.SCALARS), ("field", LP + "LinCodePCProofSingle", "v", T.SCALARS)),
+        ("columns~E(well_formedness)", ("field", LP + "LinCodePCProofSingle", "columns", T.SCALARS), ("field", LP + "LinCodePCProof", "well_formedness", T.SCALARS)),
+        ("leaf_index~transcript-index", ("field", "ark_crypto_primitives::merkle_tree::Path", "leaf_index", None), ("squeeze", "squeeze_bytes", ["u8"])),
+        ("v~claimed-value", ("field", LP + "LinCodePCProofSingle", "v", T.SCALARS), ("param", "values", T.SCALARS)),
+    ],
+    "kzg10.check": [
+        ("commitment~witness", ("field", "kzg10::data_structures::Commitment", "0", None), ("field", "kzg10::data_structures::Proof", "w", None)),
+        ("value~witness", ("param", "values", T.SCALARS), ("field", "kzg10::data_structures::Proof", "w", None)),
+    ],
+    "hyrax.check": [
+        ("row_coms~z", ("field", "hyrax::data_structures::HyraxCommitment", "row_coms", None), ("field", "hyrax::data_structures::HyraxProof", "z", T.SCALARS)),
+        ("com_eval~z_b", ("field", "hyrax::data_structures::HyraxProof", "com_eval", None), ("field", "hyrax::data_structures::HyraxProof", "z_b", None)),
+        ("com_eval~claimed-value", ("field", "hyrax::data_structures::HyraxProof", "com_eval", None), ("param", "values", T.SCALARS)),
+    ],
+    "multilinear.check": [
+        ("commitment~proofs", ("field", "multilinear_pc::data_structures::Commitment", "g_product", None), ("field", "multilinear_pc::data_structures::Proof", "proofs", T.G2A)),
+    ],
+    "streaming.verify": [
+        ("commitment~proof", ("field", "streaming_kzg::Commitment", "0", None), ("field", "streaming_kzg::EvaluationProof", "0", None)),
+    ],
+}
+
+
+def meet_starts(ctx, a, spec):
+    from ..flow import payload_nodes
+    g = ctx.graph(a)
+    f = ctx.facts
+    kind = spec[0]
+    if kind == "field":
+        n = ("FIELD", spec[1], spec[2])
+        if n not in g.fwd:
+            return []
+        return [("STATE", n, t) for t in spec[3]] if spec[3] else [n]
+    if kind == "param":
+        idx = a.roles.get(spec[1])
+        if idx is None:
+            return []
+        return list(payload_nodes(g, [(a.body.id, idx)], spec[2]).keys())
+    if kind == "squeeze":
+        out = []
+        for bid in g.scope:
+            for i, t in f.bodies[bid].calls():
+                if t.get("callee_trait") == T.SPONGE_TRAIT and (t.get("callee") or "").endswith("::" + spec[1]):
+                    out.extend(("STATE", ("CALLRES", bid, i), ty) for ty in spec[2])
+        return out
+    return []
+
+
 RULE = ("instances = verdict call sites + verifier x proof field + proof-vs-claims zip sites + encode calls on proof "
         "vectors; an instance holds iff the flow / dominance fact is established on the type-checked program")
 
@@ -34,6 +90,13 @@ def run(rep, ctx, tier):
         for name, comp in R1.proof_components(a, ctx.facts):
             ok, detail, where, n = R1.component(ctx, a, comp, cut_sponge=True)
             rep.add("R1", "%s:%s" % (a.key, name), ok, detail, where or a.body.span, nontrivial=n > 0)
+        for name, sa, sb in MEETS.get(a.key, []):
+            A, B = meet_starts(ctx, a, sa), meet_starts(ctx, a, sb)
+            if not A or not B:
+                rep.add("R1m", "%s:meet:%s" % (a.key, name), False, "component not found in %s (fail closed)" % a.key, a.body.span)
+                continue
+            ok, detail, where = R1M.check(ctx, a, A, B)
+            rep.add("R1m", "%s:meet:%s" % (a.key, name), ok, "%s: %s" % (name, detail), where)
         zips += R4.run_zip(rep, ctx, a, "R4a")
         if a.info.get("adt") == "linear_codes::LinearCodePCS":
             n = R4.run_encode(rep, ctx, a, "R4b")
